@@ -65,7 +65,7 @@ def build_harness():
     return BIN
 
 
-def run_harness(args, timeout=1800, cwd=None):
+def run_harness(args, timeout=7200, cwd=None):
     p = subprocess.run([BIN] + args, stdout=subprocess.PIPE, stderr=subprocess.PIPE, text=True,
                        timeout=timeout, cwd=cwd)
     if p.returncode != 0:
